@@ -198,10 +198,28 @@ pub fn c09(rec: &mut Rec, lm: &Landmarks, rng: &mut Rng, thorough: bool) {
                 let v = ((days_from_civil(y, mo, d) - d1900 - gday) as i128) * NS_DAY as i128 + 45_296 * NS_S as i128 + 789;
                 m.eload_dur(ts, ns_dur(v));
                 if ts != TimeScale::GPST {
-                    m.to_greg(ts);
+                    m.greg_round_trip(ts, 0);
                 }
                 m.accessors();
             }
+        }
+    }
+    // random days of years -30 000 .. 30 000, with every year around zero: fields, and the epoch built from them
+    let nr = if thorough { 40_000 } else { 1_500 };
+    for i in 0..nr {
+        let y: i64 = if i % 3 == 0 { rng.range_i64(-420, 20) } else { rng.range_i64(-30_000, 30_000) };
+        let day = days_from_civil(y, 1, 1) - d1900 + rng.range_i64(0, 364);
+        let ts = if i % 2 == 0 { TimeScale::TAI } else { TimeScale::UTC };
+        let tod: i128 = match i % 3 {
+            0 => 0,
+            1 => NS_DAY as i128 - 1,
+            _ => rng.below(NS_DAY) as i128,
+        };
+        m.eload_dur(ts, ns_dur(day as i128 * NS_DAY as i128 + tod));
+        m.greg_round_trip(ts, (i % 3) as u8);
+        if i % 4 == 0 {
+            m.accessors();
+            m.doy();
         }
     }
 }
